@@ -11,6 +11,7 @@ import (
 	"gonum.org/v1/gonum/graph"
 	"gonum.org/v1/gonum/graph/encoding/digraph6"
 	"gonum.org/v1/gonum/graph/encoding/graph6"
+	"gonum.org/v1/gonum/graph/iterator"
 	"gonum.org/v1/gonum/graph/simple"
 	"pgregory.net/rapid"
 	"verifharness/vk"
@@ -369,6 +370,81 @@ type g6Case struct {
 	Density  int    // percent
 	UseMask  bool   // exhaustive enumeration: adjacency from Mask
 	Mask     uint64 // bit k = k-th pair in format order (loops skipped)
+	// Loops lists ranks of nodes that carry a self loop. graph6 cannot
+	// represent loops and the decoders ignore the diagonal, so the loops must
+	// not change the decoded topology. A case with loops is encoded from a
+	// harness graph type (simple graphs reject self loops).
+	Loops []int `json:",omitempty"`
+}
+
+// loopGraph is a graph.Graph over an adjacency matrix that may have a non-zero
+// diagonal. The undirected flavour has a symmetric matrix.
+type loopGraph struct {
+	ids []int64
+	idx map[int64]int
+	adj [][]bool
+}
+
+func newLoopGraph(ids []int64, adj [][]bool, loops []int) *loopGraph {
+	g := &loopGraph{ids: ids, idx: map[int64]int{}, adj: make([][]bool, len(adj))}
+	for i, id := range ids {
+		g.idx[id] = i
+		g.adj[i] = append([]bool(nil), adj[i]...)
+	}
+	for _, l := range loops {
+		if l >= 0 && l < len(ids) {
+			g.adj[l][l] = true
+		}
+	}
+	return g
+}
+
+func (g *loopGraph) Node(id int64) graph.Node {
+	if _, ok := g.idx[id]; !ok {
+		return nil
+	}
+	return simple.Node(id)
+}
+
+func (g *loopGraph) Nodes() graph.Nodes {
+	// delivered in decreasing ID order: the encoder has to sort
+	ns := make([]graph.Node, 0, len(g.ids))
+	for i := len(g.ids) - 1; i >= 0; i-- {
+		ns = append(ns, simple.Node(g.ids[i]))
+	}
+	return iterator.NewOrderedNodes(ns)
+}
+
+func (g *loopGraph) From(id int64) graph.Nodes {
+	i, ok := g.idx[id]
+	if !ok {
+		return graph.Empty
+	}
+	var ns []graph.Node
+	for j := len(g.ids) - 1; j >= 0; j-- {
+		if g.adj[i][j] {
+			ns = append(ns, simple.Node(g.ids[j]))
+		}
+	}
+	if len(ns) == 0 {
+		return graph.Empty
+	}
+	return iterator.NewOrderedNodes(ns)
+}
+
+func (g *loopGraph) HasEdgeBetween(xid, yid int64) bool {
+	i, ok1 := g.idx[xid]
+	j, ok2 := g.idx[yid]
+	return ok1 && ok2 && (g.adj[i][j] || g.adj[j][i])
+}
+
+func (g *loopGraph) Edge(uid, vid int64) graph.Edge {
+	i, ok1 := g.idx[uid]
+	j, ok2 := g.idx[vid]
+	if !ok1 || !ok2 || !g.adj[i][j] {
+		return nil
+	}
+	return simple.Edge{F: simple.Node(uid), T: simple.Node(vid)}
 }
 
 func (c g6Case) adjacency() [][]bool {
@@ -501,6 +577,18 @@ func checkG6RoundTrip(c g6Case) *vk.Failure {
 		set(ids[e.i], ids[e.j])
 	}
 
+	var loops []int
+	for _, l := range c.Loops {
+		if l >= 0 && l < n {
+			loops = append(loops, l)
+		}
+	}
+	if len(loops) > 0 {
+		vk.Class("rt " + codec + " source graph with self loops")
+		vk.NonTrivial("g6-loops", c.Directed, n, c.Seed, c.Density, c.Mask, fmt.Sprint(loops))
+		return checkG6Loops(c, adj, ids, loops)
+	}
+
 	var s []byte
 	if r := vk.Call(func() { s = g6Encode(src, c.Directed) }); r.Outcome != vk.Returned {
 		return vk.Failf("encode-panics", "Encode on a simple graph of order %d: %v %s", n, r.Outcome, r.Text)
@@ -529,6 +617,58 @@ func checkG6RoundTrip(c g6Case) *vk.Failure {
 		return vk.Failf("reencode", "Encode(Graph(s))=%q, s=%q", quoteShort(s2), quoteShort(s))
 	}
 	return checkGoString(s, c.Directed, int64(n), refBits(adj, c.Directed))
+}
+
+// checkG6Loops encodes a graph that has self loops. graph6 holds the upper
+// triangle of the adjacency matrix only and both decoders ignore the diagonal,
+// so the encoding must decode to the topology of the graph without its loops:
+// for graph6 the string is the one of the loop-free graph, for digraph6 the
+// diagonal bits may be set (the format has them) or not.
+func checkG6Loops(c g6Case, adj [][]bool, ids []int64, loops []int) *vk.Failure {
+	n := len(adj)
+	withLoops := newLoopGraph(ids, adj, loops)
+	var s, s0 []byte
+	if r := vk.Call(func() { s = g6Encode(withLoops, c.Directed) }); r.Outcome != vk.Returned {
+		return vk.Failf("encode-panics", "Encode on a graph of order %d with self loops at ranks %v: %v %s", n, loops, r.Outcome, r.Text)
+	}
+	if r := vk.Call(func() { s0 = g6Encode(newLoopGraph(ids, adj, nil), c.Directed) }); r.Outcome != vk.Returned {
+		return vk.Failf("encode-panics", "Encode on a loop-free graph of order %d: %v %s", n, r.Outcome, r.Text)
+	}
+	want := refEncode(adj, c.Directed, 0)
+	if string(s0) != string(want) {
+		return vk.Failf("encode-differs-from-format", "order %d (harness graph type, no loops): Encode=%q, format definition gives %q", n, quoteShort(s0), quoteShort(want))
+	}
+	if !g6IsValid(s, c.Directed) {
+		return vk.Failf("encode-not-valid", "IsValid(Encode(g)) is false for order %d with self loops at ranks %v: %q", n, loops, quoteShort(s))
+	}
+	alt := want
+	if c.Directed {
+		diag := make([][]bool, n)
+		for i := range diag {
+			diag[i] = append([]bool(nil), adj[i]...)
+		}
+		for _, l := range loops {
+			diag[l][l] = true
+		}
+		alt = refEncode(diag, true, 0)
+	}
+	if string(s) != string(want) && string(s) != string(alt) {
+		// the same graph without its loops is encoded correctly (checked above), so
+		// the loops are what changed the adjacency bits
+		var extra []string
+		if gn, gb, why := refParse(s, c.Directed); why == "" && gn == int64(n) {
+			got := refAdj(gn, gb, c.Directed)
+			for i := 0; i < n; i++ {
+				for j := 0; j < n; j++ {
+					if got[i][j] != adj[i][j] && (c.Directed || i < j) && len(extra) < 6 {
+						extra = append(extra, fmt.Sprintf("%d-%d decoded=%v graph=%v", i, j, got[i][j], adj[i][j]))
+					}
+				}
+			}
+		}
+		return vk.Failf("encode-self-loop-changes-adjacency", "order %d, self loops at ranks %v: Encode=%q, but the graph without the loops encodes as %q; graph6 cannot hold loops, so they must be ignored (or rejected), not change other adjacency bits; differing pairs (by rank): %v", n, loops, quoteShort(s), quoteShort(want), extra)
+	}
+	return checkDecoded(s, c.Directed, adj, true)
 }
 
 // checkFromAbsent: graph.Graph documents "From must not return nil"; other
@@ -567,6 +707,10 @@ func drawG6(t *rapid.T) g6Case {
 	}
 	c.Seed = rapid.Uint64().Draw(t, "seed")
 	c.Density = rapid.SampledFrom([]int{0, 1, 5, 20, 50, 80, 99, 100}).Draw(t, "density")
+	if c.N > 0 && rapid.IntRange(0, 5).Draw(t, "loops") == 0 {
+		c.Loops = rapid.SliceOfNDistinct(rapid.IntRange(0, c.N-1), 1, min(c.N, 4), rapid.ID[int]).Draw(t, "loop_ranks")
+		sort.Ints(c.Loops)
+	}
 	return c
 }
 
@@ -594,6 +738,36 @@ func TestG6RoundTrip(t *testing.T) {
 			if i < b.count {
 				m := uint64(i)
 				return g6Case{Directed: b.directed, N: b.n, UseMask: true, Mask: m, IDMode: int(m % 3), IDBase: -7, IDStep: 3, Seed: m}
+			}
+			i -= b.count
+		}
+		panic("unreachable")
+	}, checkG6RoundTrip)
+	// every graph on <= 4 nodes (digraph on <= 3 nodes) with every non-empty set
+	// of self loops
+	var lblocks []block
+	ltotal := 0
+	for n := 1; n <= 4; n++ {
+		lblocks = append(lblocks, block{false, n, (1 << uint(n*(n-1)/2)) * (1<<uint(n) - 1)})
+	}
+	for n := 1; n <= 3; n++ {
+		lblocks = append(lblocks, block{true, n, (1 << uint(n*(n-1))) * (1<<uint(n) - 1)})
+	}
+	for _, b := range lblocks {
+		ltotal += b.count
+	}
+	vk.Enumerate(t, "g6-rt", ltotal, func(i int) g6Case {
+		for _, b := range lblocks {
+			if i < b.count {
+				sets := 1<<uint(b.n) - 1
+				m, ls := uint64(i/sets), i%sets+1
+				c := g6Case{Directed: b.directed, N: b.n, UseMask: true, Mask: m, IDMode: int(m % 3), IDBase: -7, IDStep: 3, Seed: m}
+				for k := 0; k < b.n; k++ {
+					if ls>>uint(k)&1 == 1 {
+						c.Loops = append(c.Loops, k)
+					}
+				}
+				return c
 			}
 			i -= b.count
 		}
